@@ -398,7 +398,7 @@ func renderVtt(r *rng, d *vttDoc) string {
 					stack = append(stack, t)
 				}
 				if run.Time != 0 {
-					b.WriteString("<" + stamp(run.Time, ".", 3, false) + ">")
+					b.WriteString("<" + vttStamp(r, run.Time) + ">") // mm:ss.ttt or hh:mm:ss.ttt
 				}
 				b.WriteString(vttEsc(run.Text))
 			}
